@@ -220,3 +220,82 @@ mut('c03-new-raise-before-mark', 'C03', ['C03.4'], S,
     "        # Execute handlers\n        await self._execute_handlers(event, handlers=applicable_handlers, timeout=timeout)\n",
     "        if len(applicable_handlers) > 64:\n            raise ValueError('too many handlers')\n        # Execute handlers\n        await self._execute_handlers(event, handlers=applicable_handlers, timeout=timeout)\n",
     'a new explicit raise escapes process_event before the event is marked (must be a new key)')
+
+# ================================================================================================ C04
+mut('c04-inline-waits-signal', 'C04', ['C04.1'], M,
+    "                            try:\n                                await asyncio.sleep(0)\n                            except asyncio.CancelledError:\n                                raise\n",
+    "                            try:\n                                await asyncio.wait_for(self.event_completed_signal.wait(), timeout=0.5)\n                            except asyncio.CancelledError:\n                                raise\n",
+    'inline branch blocks on the signal while holding the lock')
+mut('c04-inline-calls-step', 'C04', ['C04.1', 'C04.2'], M,
+    "                                    event = bus.event_queue.get_nowait()\n                                    try:\n                                        await bus.process_event(event)\n",
+    "                                    event = bus.event_queue.get_nowait()\n                                    try:\n                                        await bus.step(event)\n",
+    'inline branch calls step()')
+mut('c04-lock-not-reentrant', 'C04', ['C04.2'], S,
+    "        if holds_global_lock.get():\n            # We already hold the lock in this context, increment depth\n            self._depth += 1\n            return self\n",
+    "        if holds_global_lock.get() and self._depth > 1:\n            # We already hold the lock in this context, increment depth\n            self._depth += 1\n            return self\n",
+    'owner blocks on its own lock')
+mut('c04-early-return', 'C04', ['C04.3'], M,
+    "                        if not processed_any:\n                            # No events to process, yield control and check for cancellation\n",
+    "                        if iterations > 10 and not processed_any:\n                            return self\n                        if not processed_any:\n                            # No events to process, yield control and check for cancellation\n",
+    'gives up after 10 idle polls: returns the child pending (a new key)')
+mut('c04-nonhandler-branch-timeout', 'C04', ['C04.3'], M,
+    "                await self.event_completed_signal.wait()\n",
+    "                try:\n                    await asyncio.wait_for(self.event_completed_signal.wait(), timeout=30)\n                except TimeoutError:\n                    pass\n",
+    'external await gives up silently after 30 s')
+
+# ================================================================================================ C05
+mut('c05-queue-tail', 'C05', ['C05.1'], M,
+    "                                    event = bus.event_queue.get_nowait()\n",
+    "                                    event = bus.event_queue._queue.pop()\n",
+    'inline loop takes the queue tail (a different key from F0)')
+mut('c05-sleep-before-loop', 'C05', ['C05.2'], M,
+    "                try:\n                    while not self.event_completed_signal.is_set() and iterations < max_iterations:",
+    "                try:\n                    await asyncio.sleep(0)\n                    while not self.event_completed_signal.is_set() and iterations < max_iterations:",
+    'handler yields before processing the child')
+mut('c05-unconditional-sleep', 'C05', ['C05.2'], M,
+    "                        if not processed_any:\n                            # No events to process, yield control and check for cancellation\n",
+    "                        if True:\n                            # No events to process, yield control and check for cancellation\n",
+    'handler yields after every round')
+mut('c05-flag-not-set', 'C05', ['C05.2'], M,
+    "                                    processed_any = True\n", "                                    processed_any = bool(bus.event_queue.qsize())\n",
+    'processed flag not reliably set')
+
+# ================================================================================================ C06
+mut('c06-no-lock-in-step', 'C06', ['C06.1'], S,
+    "        async with _get_global_lock():\n            # Process the event\n            try:\n                await self.process_event(event, timeout=timeout)\n            finally:\n                # Mark task as done only if we got it from the queue, also when processing was\n                # interrupted (e.g. cancelled), otherwise event_queue.join() would wait forever\n                if from_queue:\n                    self.event_queue.task_done()\n",
+    "        if True:\n            # Process the event\n            try:\n                await self.process_event(event, timeout=timeout)\n            finally:\n                # Mark task as done only if we got it from the queue, also when processing was\n                # interrupted (e.g. cancelled), otherwise event_queue.join() would wait forever\n                if from_queue:\n                    self.event_queue.task_done()\n",
+    'step processes without the lock')
+mut('c06-per-bus-lock', 'C06', ['C06.1'], S,
+    "    global _global_eventbus_lock\n    if _global_eventbus_lock is None:\n        _global_eventbus_lock = ReentrantLock()\n    return _global_eventbus_lock",
+    "    return ReentrantLock()",
+    'a fresh lock per call')
+mut('c06-inline-without-lock-flag', 'C06', ['C06.1'], M,
+    "            if not self.event_completed_signal.is_set() and inside_handler_context.get() and holds_global_lock.get():",
+    "            if not self.event_completed_signal.is_set() and inside_handler_context.get():",
+    'inline processing without knowing the lock is held')
+mut('c06-set-true-before-acquire', 'C06', ['C06.2'], S,
+    "        await self._get_semaphore().acquire()\n        holds_global_lock.set(True)\n",
+    "        holds_global_lock.set(True)\n        await self._get_semaphore().acquire()\n",
+    'ownership claimed before acquisition')
+mut('c06-flag-written-elsewhere', 'C06', ['C06.2'], S,
+    "        # Mark that we're inside a handler\n        handler_token = inside_handler_context.set(True)\n",
+    "        # Mark that we're inside a handler\n        handler_token = inside_handler_context.set(True)\n        holds_global_lock.set(True)\n",
+    'execute_handler claims the lock flag')
+mut('c06-release-without-clearing', 'C06', ['C06.2'], S,
+    "            holds_global_lock.set(False)\n            self._get_semaphore().release()\n",
+    "            self._get_semaphore().release()\n",
+    'flag stays true after release')
+mut('c06-revert-f6', 'C06', ['C06.3'], S,
+    "        holds_global_lock.set(False)\n        inside_handler_context.set(False)\n", "        inside_handler_context.set(False)\n",
+    'run loop inherits lock ownership again (F6 reverted)')
+mut('c06-handler-task-not-cancelled', 'C06', ['C06.3'], S,
+    "            if handler_task and not handler_task.done():\n                handler_task.cancel()\n",
+    "            if handler_task and not handler_task.done() and timeout:\n                handler_task.cancel()\n",
+    'handler task may outlive execute_handler')
+mut('c06-background-dispatch-task', 'C06', ['C06.3'], S,
+    "        # Clean up excess events to prevent memory leaks\n        if self.max_history_size:\n            self.cleanup_event_history()\n\n    def _get_applicable_handlers",
+    "        # Clean up excess events to prevent memory leaks\n        if self.max_history_size:\n            self.cleanup_event_history()\n        if event.event_parent_id is None and not self.event_queue.empty():\n            asyncio.create_task(self.step())\n\n    def _get_applicable_handlers",
+    'a background task that processes events is spawned from inside the lock')
+mut('c06-always-parallel', 'C06', ['C06.4', 'C06.3'], S,
+    "        if self.parallel_handlers:\n            handler_tasks", "        if self.parallel_handlers or len(applicable_handlers) > 3:\n            handler_tasks",
+    'concurrent handlers without parallel_handlers')
